@@ -238,7 +238,13 @@ def code_layer(g, chart, level, canary=False):
     off = offsets(g, level, CODE_POOL)
     pad = [('', ''), ('', '  '), ('', '\n'), ('\n', '  ')][off % 4]     # surrounding whitespace that keeps the code valid
 
+    canon = {}
+    for t_, tr_ in enumerate(chart['tr']):      # transitions with equal ends and event share their code: true duplicates
+        canon[t_] = min(u for u, x in enumerate(chart['tr']) if x == tr_)
+
     def code(kind, ident):
+        if kind in ('guard', 'action'):
+            ident = canon[ident]
         if kind == 'guard':
             return rot(EXPR_POOL, off, ident, 5)
         if kind == 'action':
@@ -253,7 +259,7 @@ def code_layer(g, chart, level, canary=False):
         # declaration order of transitions: canonical, or interleaved (sources A, B, A) when the level asks for it
         tro = ([0] + list(range(2, m_)) + [1]) if (level.get('interleave') and m_ >= 3) else None
         sc, trs, cm = cg.build(chart, 'id', code, name=rot(NAME_POOL, off, 0), preamble=rot(CODE_POOL, off, 3),
-                               priorities=[rot(PRIO_POOL, off, t, 3) for t in range(m_)], tr_order=tro)
+                               priorities=[rot(PRIO_POOL, off, canon[t], 3) for t in range(m_)], tr_order=tro)
         sc.description = rot(DESC_POOL, off, 0, 2)
         for i in range(cm.n):
             st = sc.state_for(cm.names[i])
@@ -264,6 +270,7 @@ def code_layer(g, chart, level, canary=False):
             if (i + off) % 3 == 0:
                 st.postconditions.append(pad[0] + rot(EXPR_POOL, off, i + 3) + pad[1])
         for t, tr in enumerate(trs):
+            t = canon[t]
             which = (t + off) % 4
             if which == 0:
                 tr.invariants.append(rot(EXPR_POOL, off, t + 4))          # only `always`
